@@ -177,6 +177,8 @@ def judge_file(ctx, path, what, rc, out):
                 pass
         ctx.reject("C20:%s:%s" % (fn, kind), "%s inside a driven call (%s): %s; partial record: %s" % (
             kind, what, san.group(1) if san else out[-300:], (tail or "")[:400]), payload)
+        # the crash handler of the harness appends a {"e":"crash"} line: not a call record
+        lines = [l for l in lines if not l.startswith('{"e":"crash"')]
         with open(path, "w") as f:
             f.write("\n".join(lines) + ("\n" if lines else ""))
     nlines = len(lines)
@@ -216,7 +218,7 @@ def judge_file(ctx, path, what, rc, out):
 
 
 def model_checks(ctx):
-    vlib.tlc_mc(ctx, "MCRandom", "MC_Random.cfg", workers=8, timeout=3000, tag="MCRandom")
+    vlib.tlc_mc(ctx, "MCRandom", "MC_Random.cfg", workers=8, timeout=3000, tag="MCRandom", xmx="2g")
 
     def guard(g):
         cfg, inv = g
